@@ -71,6 +71,20 @@ def queryReplyQueue (s : CState) (startAfter : Option Nat) (limit : Option Nat) 
 def queryUnstakeRequests (s : CState) (user : String) : List Req :=
   s.reqs.filter (fun r => r.user = user)
 
+/-- order of the `unstake_requests_by_user` unique index, whose raw key is the length-prefixed
+user string followed by the big-endian batch id: by length of the user string (bytes), then the
+string, then the batch id -/
+def reqKeyLe (a b : Req) : Bool :=
+  if a.user.utf8ByteSize != b.user.utf8ByteSize then decide (a.user.utf8ByteSize < b.user.utf8ByteSize)
+  else if a.user != b.user then decide (a.user < b.user)
+  else decide (a.batch ≤ b.batch)
+
+/-- `query_all_unstake_requests` / `_v2` (deprecated): the index in its own order, cut after `limit`
+entries.  The cursor is the bound `("", start_after)`, which sorts before every stored key (no user
+is the empty string), so it never excludes anything. -/
+def queryAllRequests (s : CState) (_startAfter : Option Nat) (limit : Option Nat) : List Req :=
+  (s.reqs.mergeSort reqKeyLe).take (limit.getD U32.max)
+
 structure StateResp where
   totalNative : Nat
   totalLst : Nat
